@@ -13,6 +13,7 @@ import EinoV.Gen.FactsC03
 import EinoV.Expected.C03
 import EinoV.Proofs.C03Engine
 import EinoV.Proofs.C02Confluence
+import EinoV.Proofs.C02EagerConfluence
 import EinoV.Model.C03Loop
 import EinoV.Proofs.C03Loop
 
@@ -608,5 +609,22 @@ open EinoV.Engine EinoV.Engine.DagRun in
 /-- **dag_wf3_check_sound.** The executable check of `DagWF3` (evaluated by the C02 oracle on every
     generated all-predecessor case) implies it. -/
 theorem dag_wf3_check_sound {V : Type} (r : Runner V) (h : dagWF3b r = true) : DagWF3 r := dagWF3b_sound r h
+
+open EinoV.Engine EinoV.Engine.DagRun in
+/-- **workflow_result_completion_order_independent** (engine level, eager loop of Workflows).  Under
+    the same hypotheses: two eager runs, one completion at a time under two arbitrary completion
+    orders `pA`, `pB`, that both return a value return the same value. -/
+theorem workflow_result_completion_order_independent {V : Type} (ops : ValOps V) (hm : MergePerm ops) (r : Runner V)
+    (wf : DagWF r) (wf2 : DagWF2 r) (wf3 : DagWF3 r) (pA pB : Pick V) (x vA vB : V)
+    (hA : (runEager ops r pA x).result = .ok vA) (hB : (runEager ops r pB x).result = .ok vB) : vA = vB :=
+  runEager_result_pick_independent ops hm r wf wf2 wf3 pA pB x vA vB hA hB
+
+open EinoV.Engine EinoV.Engine.DagRun in
+/-- **eager_run_agrees_with_batch_run.** … and it is the value the batch loop (wait for all nodes of a
+    step) returns under any fair schedule. -/
+theorem eager_run_agrees_with_batch_run {V : Type} (ops : ValOps V) (hm : MergePerm ops) (r : Runner V)
+    (wf : DagWF r) (wf2 : DagWF2 r) (wf3 : DagWF3 r) (pick : Pick V) (sched : Sched V) (hf : sched.Fair) (x vE vB : V)
+    (hE : (runEager ops r pick x).result = .ok vE) (hB : (runS ops r sched x).result = .ok vB) : vE = vB :=
+  runEager_agrees_with_batch ops hm r wf wf2 wf3 pick sched hf x vE vB hE hB
 
 end EinoV.C03
